@@ -126,7 +126,13 @@ class Origins:
     def operand(self, o, bb, i):
         """Origin of operand `o` evaluated at statement index i of block bb (i=len → terminator)."""
         if "const" in o:
-            return const_tree(o["const"])
+            c = o["const"]
+            if "promoted" in c and c.get("of") == self.fn.id and c["promoted"] < len(self.fn.promoted) and self.body is not self.fn.promoted[c["promoted"]]:
+                try:
+                    return Origins(self.fn, body=self.fn.promoted[c["promoted"]]).return_origin()
+                except Exception:
+                    return const_tree(c)
+            return const_tree(c)
         pl = o.get("copy") or o.get("move")
         if pl is None:
             return ("unknown", "operand")
@@ -263,7 +269,16 @@ class Origins:
             return ("callind", self.operand(f["indirect"], bb, n), tuple(self.operand(a, bb, n) for a in t["args"]))
         r = f.get("resolved") or f
         gargs = tuple(ty_str(a) for a in r.get("args", []))
-        return ("call", r["path"], gargs, tuple(self.operand(a, bb, n) for a in t["args"]))
+        node = ("call", r["path"], gargs, tuple(self.operand(a, bb, n) for a in t["args"]))
+        # calls that receive a `&mut` may observe/modify state: successive calls are different
+        # values, so the node carries its call site
+        for a in t["args"]:
+            pl = a.get("move") or a.get("copy")
+            if pl is not None and not pl["p"]:
+                ty = self.body["locals"][pl["l"]]["ty"]
+                if isinstance(ty, dict) and "ref" in ty and ty.get("mut"):
+                    return node + ("@bb%d" % self._blk(bb),)
+        return node
 
     def _rvalue(self, rv, bb, j):
         k = rv["k"]
